@@ -309,6 +309,48 @@ func Harness_C06_QueryParams() {
 	verif.Cover("decoded")
 }
 
+// Harness_C06_Wide: a record with 66 required fields (more than a machine
+// word has bits); two solver-chosen fields may be absent. Exactly the absent
+// ones are reported, whatever their index.
+// full 0: the absent fields are chosen among the indices around the word-size
+// boundaries; full 1: among all 66.
+func Harness_C06_Wide(format, full int) {
+	d := c06DocFor(format)
+	name := func(i int) string { return "f" + string(rune('0'+i/10)) + string(rune('0'+i%10)) }
+	var drop1, drop2 int // 66 = nothing dropped
+	if full == 1 {
+		drop1, drop2 = verif.Choose(67), verif.Choose(67)
+	} else {
+		menu := []int{0, 31, 32, 63, 64, 65, 66}
+		drop1, drop2 = menu[verif.Choose(len(menu))], menu[verif.Choose(len(menu))]
+	}
+	var fields, want []string
+	for i := 0; i < 66; i++ {
+		if i == drop1 || i == drop2 {
+			want = append(want, name(i))
+			continue
+		}
+		fields = append(fields, d.kv(name(i), d.str("v")))
+	}
+	doc := d.obj(fields)
+	v := new(vt.Wide)
+	err := v.UnmarshalRestLi(c06Reader(d, doc))
+	if len(want) == 0 {
+		verif.Assert(err == nil, "a complete document of a 66-field record was rejected")
+		verif.Cover("complete")
+	} else {
+		mf, ok := err.(*restlicodec.MissingRequiredFieldsError)
+		verif.Assert(ok, "missing required fields not reported")
+		got := append([]string(nil), mf.Fields...)
+		sort.Strings(got)
+		sort.Strings(want)
+		verif.Assert(strings.Join(got, " ") == strings.Join(want, " "), "missing set is ["+strings.Join(got, " ")+"] want ["+strings.Join(want, " ")+"]")
+		verif.Cover("missing-reported")
+	}
+	verif.Assert(v.F00 == "v" || drop1 == 0 || drop2 == 0, "present field not populated")
+	verif.Assert(v.F65 == "v" || drop1 == 65 || drop2 == 65, "present field not populated")
+}
+
 func Harness_C06_Twin(format int) {
 	d := c06DocFor(format)
 	var top []string
